@@ -139,6 +139,49 @@ def check_coarse_threshold(env, acc, thr=0.02):
         lw.settings.sampler_probability_threshold = old
 
 
+def check_backend_names(env, acc):
+    """Every way of naming a backend: a name is either refused, or the sampler built with it returns the distribution
+    (spellings the library accepts must not select 'no backend')."""
+    names = ["permanent", "slos", "SLOS", "Slos", "Permanent", "PERMANENT", " slos", "slos ", "perm", "", "clifford", "Clifford"]
+    for rc in emulator_family(env, "quick"):
+        if rc["name"] not in ("n3/U/none", "n3/U,L/h1", "n3/L,U,L/io"):
+            continue
+        c, _ = build(rc, env)
+        for vin in ref_fock.basis(c.input_modes, 2)[:4]:
+            (ref, fold), n_inj = ref_distribution(c, vin)
+            for nm in names:
+                case = {"scenario": "backend_names", "recipe": rc, "input": vin, "backend": nm, "seed": env.seed}
+                acc.tick("executions"); acc.tick("transitions")
+                try:
+                    s = emu.Sampler(c, lw.State(list(vin)), backend="".join(list(nm)))
+                except (ValueError, NotImplementedError):
+                    acc.tick("rejected_calls")
+                    acc.outcome("backend_name:refused")
+                    continue
+                try:
+                    d = s.probability_distribution
+                except Exception as e:  # noqa: BLE001
+                    acc.violation("distribution_raises", case, {"error": repr(e)})
+                    continue
+                compare(d, ref, fold, n_inj, c.n_modes, nm, case, acc)
+                acc.outcome("backend_name:accepted")
+                acc.state("names", rc["name"], vin, nm)
+        # assigning the name later goes through the same rule
+        s = emu.Sampler(c, lw.State([1] + [0] * (c.input_modes - 1)))
+        (ref, fold), n_inj = ref_distribution(c, tuple([1] + [0] * (c.input_modes - 1)))
+        for nm in names:
+            case = {"scenario": "backend_names", "recipe": rc, "assign": True, "backend": nm, "seed": env.seed}
+            acc.tick("executions"); acc.tick("transitions")
+            try:
+                s.backend = nm
+            except (ValueError, NotImplementedError, TypeError):
+                acc.tick("rejected_calls")
+            try:
+                compare(s.probability_distribution, ref, fold, n_inj, c.n_modes, nm, case, acc)
+            except Exception as e:  # noqa: BLE001
+                acc.violation("distribution_raises", case, {"error": repr(e)})
+
+
 def run(tier, seed):
     env = Env(seed)
     fam = emulator_family(env, tier)
@@ -160,7 +203,7 @@ def run(tier, seed):
         return a
 
     acc.merge(kernel.pmap(shard_lay, kernel.interleave(lay, kernel.NPROC * 3)))
-    b = kernel.Acc(); check_bunched(env, b); check_coarse_threshold(env, b); acc.merge(b)
+    b = kernel.Acc(); check_bunched(env, b); check_coarse_threshold(env, b); check_backend_names(env, b); acc.merge(b)
     meta = {
         "rule": "(plus 2-mode inputs with 13..26 photons, where occupation factorials exceed 64 bits) every circuit recipe of the emulator family (and every herald layout of <= 2 heralds on 3 modes, 4 in thorough: ordered "
                 "input modes x ordered output modes x photon numbers {0,1,2}; every mode heralded on 2 and 3 modes) x every Fock input on the visible modes up to the photon "
@@ -180,6 +223,9 @@ def replay(w, acc):
     env = Env(case.get("seed", 0))
     if case.get("scenario") == "coarse_threshold":
         check_coarse_threshold(env, acc, case.get("threshold", 0.02))
+        return
+    if case.get("scenario") == "backend_names":
+        check_backend_names(env, acc)
         return
     if case.get("scenario") == "bunched":
         check_bunched(env, acc)
